@@ -66,6 +66,23 @@ var c8ListMethods = []string{
 
 const c8MaxList = 2600
 
+// Relative frequency of the write methods in generated runs (2 when not listed): the
+// operations on mailbox rows and message flags meet each other more often than the
+// administrative ones.
+var c8WriteWeight = map[string]int{
+	"CreateMessages": 4, "CreateMessageAndAddToMailbox": 6, "AddMessagesToMailbox": 6,
+	"RemoveMessagesFromMailbox": 3, "SetMailboxMessagesDeletedFlag": 5,
+	"ClearRecentFlagInMailboxOnMessage": 3, "ClearRecentFlagsInMailbox": 3,
+	"AddFlagToMessages": 4, "RemoveFlagFromMessages": 4, "SetFlagsOnMessages": 4,
+	"DeleteMessages": 2, "MarkMessageAsDeleted": 1, "MarkMessageAsDeletedAndAssignRandomRemoteID": 1,
+	"MarkMessageAsDeletedWithRemoteID": 1, "UpdateRemoteMessageID": 3,
+	"CreateMailbox": 2, "GetOrCreateMailbox": 1, "GetOrCreateMailboxAlt": 1, "CreateMailboxIfNotExists": 1,
+	"RenameMailboxWithRemoteID": 2, "DeleteMailboxWithRemoteID": 1, "SetMailboxSubscribed": 2,
+	"UpdateRemoteMailboxID": 1, "SetMailboxUIDValidity": 1,
+	"AddFlagsToAllMailboxes": 1, "AddPermFlagsToAllMailboxes": 1,
+	"AddDeletedSubscription": 1, "RemoveDeletedSubscriptionWithName": 1, "StoreConnectorSettings": 1,
+}
+
 var errC8Abort = errors.New("c08: transaction callback gives up")
 
 // ---------------------------------------------------------------------------------
@@ -99,7 +116,7 @@ func (C08) Generate(r *core.Rand, tier string, idx int) *core.Scenario {
 		knob = c8Knobs[r.Intn(len(c8Knobs))]
 		sc.Cfg[knob] = 1
 	}
-	bulk := r.P(1, 6) || knob == "k_rmbulk"
+	bulk := r.P(1, 4) || knob == "k_rmbulk"
 	if bulk {
 		sc.Cfg["bulk"] = 1
 	}
@@ -159,12 +176,23 @@ func (C08) Generate(r *core.Rand, tier string, idx int) *core.Scenario {
 		if target != "CreateMessages" {
 			create = tlen + r.Intn(3)
 		}
-		add(c8Op(r, "CreateMessages", create))
+		// The state is prepared so that every element of the target's list matters (a
+		// skipped or doubled element at a chunk boundary changes what is read back).
+		cm := c8Op(r, "CreateMessages", create)
+		cm.A[3] = 1 // no clashing request
+		fl := r.Intn(1 << 10)
+		if target == "AddFlagToMessages" || target == "RemoveFlagFromMessages" {
+			cm.A[2] = 0 // created without flags
+		}
+		add(cm)
 		add(core.Action{K: "end", A: []int{1}})
 		switch target {
-		case "CreateMessages":
-		case "AddMessagesToMailbox", "DeleteMessages":
+		case "CreateMessages", "AddMessagesToMailbox", "DeleteMessages":
 			// keep the messages out of mailboxes
+		case "RemoveFlagFromMessages":
+			a := c8Op(r, "AddFlagToMessages", create)
+			a.A[1], a.A[2], a.A[3] = 0, fl, 1
+			add(a)
 		default:
 			a := c8Op(r, "AddMessagesToMailbox", create)
 			a.A[1] = 0 // first mailbox
@@ -177,14 +205,22 @@ func (C08) Generate(r *core.Rand, tier string, idx int) *core.Scenario {
 			}
 			a := c8Op(r, target, tlen)
 			a.A[1] = 0
-			if target == "DeleteMessages" {
+			switch target {
+			case "DeleteMessages":
 				a.A[3] = 2 // messages that are in no mailbox
-			}
-			if target == "AddMessagesToMailbox" || target == "AddFlagToMessages" || target == "SetFlagsOnMessages" {
-				a.A[3] = 1
+			case "AddMessagesToMailbox", "SetFlagsOnMessages":
+				a.A[3] = 1 // valid elements only
+			case "AddFlagToMessages":
+				a.A[2], a.A[3] = fl, 1
+			case "RemoveFlagFromMessages":
+				a.A[2], a.A[3], a.A[4] = fl, 0, 1 // the flag every message got above
+			case "RemoveMessagesFromMailbox", "SetMailboxMessagesDeletedFlag":
+				a.A[3], a.A[4] = 0, 1 // members of the mailbox; deleted=true
+			case "MailboxFilterContains":
+				a.A[3] = 2 // members
 			}
 			add(a)
-			switch r.Intn(4) {
+			switch r.Intn(6) {
 			case 0:
 				add(core.Action{K: "end", A: []int{0}}) // abort after the bulk operation
 			case 1:
@@ -219,8 +255,22 @@ func (C08) Generate(r *core.Rand, tier string, idx int) *core.Scenario {
 	if tier == "thorough" && r.P(1, 4) {
 		n = r.Range(55, 120)
 	}
-	// per-run bias: some runs are write-heavy, some mailbox-heavy
-	wWrite := r.Range(3, 7)
+	// per-run bias: some runs are write-heavy; a run also has a "focus" (a few write
+	// methods that get extra weight), so that pairs of operations meet on the same rows
+	wWrite := r.Range(5, 8)
+	weights := make([]int, len(writes))
+	for i, name := range writes {
+		w, ok := c8WriteWeight[name]
+		if !ok {
+			w = 2
+		}
+		if !enabled(name) {
+			w = 0
+		} else if r.P(1, 6) {
+			w *= 4
+		}
+		weights[i] = w
+	}
 	for i := 0; i < n; i++ {
 		switch k := r.Intn(40); {
 		case k < 4:
@@ -234,11 +284,7 @@ func (C08) Generate(r *core.Rand, tier string, idx int) *core.Scenario {
 		default:
 			name := ""
 			if r.Intn(10) < wWrite {
-				name = pick(writes)
-				// keep the population growing: creation is more frequent than uniform
-				if r.P(1, 4) {
-					name = []string{"CreateMessages", "CreateMessageAndAddToMailbox", "AddMessagesToMailbox", "CreateMailbox", "AddFlagToMessages"}[r.Intn(5)]
-				}
+				name = writes[r.Weighted(weights)]
 			} else {
 				name = pick(reads)
 			}
